@@ -210,9 +210,11 @@ func ResidDirect(in *In, o *Out) string {
 	A := DyMat(in.M)
 	switch in.Kind {
 	case "chol":
-		return fmt.Sprintf("(RChol %s %s)", A, DyMat(o.Ms[0]))
+		// only the lower triangle of A is read: the residual is taken against its symmetric completion
+		// (as OracleDirect does); the admissible inputs of the property are symmetric
+		return fmt.Sprintf("(RChol %s %s)", DyMat(symmetrize(in.M)), DyMat(o.Ms[0]))
 	case "ldl":
-		return fmt.Sprintf("(RLdl %s %s %s)", A, DyMat(o.Ms[0]), DyMat(o.Ms[1]))
+		return fmt.Sprintf("(RLdl %s %s %s)", DyMat(symmetrize(in.M)), DyMat(o.Ms[0]), DyMat(o.Ms[1]))
 	case "fpd":
 		return fmt.Sprintf("(RFpd %s %s %s)", A, DyMat(o.Ms[0]), DyMat(o.Ms[1]))
 	case "gs":
